@@ -105,6 +105,64 @@ def _compare(t, model, keys, keytype, out, step):
             bad("raises", "query on %r raised %r" % (kk, e))
 
 
+def eval_long_key(case):
+    """one very long key (deep trie): every traversal and query must still work"""
+    from ural.classes import TrieDict
+    n, keytype = case["length"], case["keytype"]
+    key = ["x"] * n
+    t = TrieDict()
+    out = []
+    try:
+        t[_mk(key, keytype)] = 1
+        t[_mk(key[: n // 2], keytype)] = 2
+        model = {tuple(key): 1, tuple(key[: n // 2]): 2}
+        if len(t) != 2:
+            out.append(("C10/len", "deep trie (key of %d tokens): len()=%r" % (n, len(t))))
+        items = sorted(((tuple(k), v) for k, v in list(t.items())), key=lambda kv: len(kv[0]))
+        if items != sorted(model.items(), key=lambda kv: len(kv[0])):
+            out.append(("C10/items", "deep trie (key of %d tokens): items() wrong (%d items)" % (n, len(items))))
+        if sorted(len(k) for k in list(t.prefixes())) != sorted(len(k) for k in model):
+            out.append(("C10/prefixes", "deep trie (key of %d tokens): prefixes() wrong" % n))
+        if sorted(t.values()) != [1, 2] or sorted(v for _, v in iter(t)) != [1, 2]:
+            out.append(("C10/values", "deep trie (key of %d tokens): values()/iter wrong" % n))
+        if t.longest_matching_prefix_value(_mk(key + ["y"], keytype)) != 1 or t.get(_mk(key, keytype)) != 1 or t[_mk(key[: n // 2], keytype)] != 2:
+            out.append(("C10/lmpv", "deep trie (key of %d tokens): point queries wrong" % n))
+    except RecursionError:
+        out.append(("C10/raises", "a key of %d tokens makes a query hit the recursion limit" % n))
+    except Exception as e:  # noqa
+        out.append(("C10/raises", "deep trie (key of %d tokens) raised %r" % (n, e)))
+    return out
+
+
+def _walk_queries(t, model, keys, out, step):
+    """the same list object is grown / shrunk in place between queries (a caller walking down a path)"""
+    for k in keys:
+        q = []
+        for tok in list(k) + [None] * len(k):
+            if tok is None:
+                q.pop()
+            else:
+                q.append(tok)
+            best = None
+            for j in range(len(q), -1, -1):
+                if tuple(q[:j]) in model:
+                    best = model[tuple(q[:j])]
+                    break
+            try:
+                got = t.longest_matching_prefix_value(q)
+                g2 = t.get(q, _SENTINEL)
+            except Exception as e:  # noqa
+                out.append(("C10/raises", "after step %d: query with a reused list %r raised %r" % (step, q, e)))
+                return
+            if got != best:
+                out.append(("C10/lmpv", "after step %d: longest_matching_prefix_value(%r)=%r expected %r (same list object mutated in place between queries)" % (step, q, got, best)))
+                return
+            exp = model.get(tuple(q), _SENTINEL)
+            if g2 is not exp and g2 != exp:
+                out.append(("C10/get", "after step %d: get(%r)=%r with a reused list" % (step, q, g2)))
+                return
+
+
 def eval_history(case):
     from ural.classes import TrieDict
 
@@ -127,6 +185,8 @@ def eval_history(case):
         model[tuple(k)] = v
         if every or i == len(ops) - 1:
             _compare(t, model, keys, keytype, out, i + 1)
+            if keytype == "list" and not out:
+                _walk_queries(t, model, [k for k in keys if len(k) == maxlen][:12] + [tuple(k2) for k2, _ in ops][-4:], out, i + 1)
             if out:
                 break
     if not ops:
@@ -173,7 +233,16 @@ def _classes(ops):
     return sorted(set(cl))
 
 
-EVALUATORS = {"trie_history": eval_history}
+EVALUATORS = {"trie_history": eval_history, "long_key": eval_long_key}
+
+
+def _long_keys(acc, shard, nshards, seed, tier):
+    idx = 0
+    for n in (50, 400, 1200, 2500, 6000):
+        for kt in ("list", "str", "tuple"):
+            idx += 1
+            if idx % nshards == shard:
+                acc.check({"kind": "long_key", "length": n, "keytype": kt}, True, ["long-key-%d" % n], distinct=True)
 
 
 def _exhaustive(acc, shard, nshards, seed, tier, length=3):
@@ -218,6 +287,8 @@ def campaigns(tier, seed):
         Campaign("exhaustive-histories", _exhaustive, "enumeration", exhaustive=True,
                  bounds="all histories of <=%d assignments over 15 keys (len 0..3 on {a,b}) x {None,1,2}; "
                         "queries on all 31 keys of len 0..4" % L, params={"length": L}),
+        Campaign("long-keys", _long_keys, "enumeration", exhaustive=True, shards=4,
+                 bounds="keys of 50 / 400 / 1200 / 2500 / 6000 tokens (list, str, tuple), a half-length prefix stored too; every traversal and point query"),
         Campaign("random-histories", hyp_campaign(
             _hyp_strategy, lambda v: v,
             nontrivial_fn=lambda c: _nontrivial([(k, v) for k, v in c["ops"]]),
